@@ -190,6 +190,34 @@ var retainSets = map[string]func() []retainCall{
 		}
 		return cs
 	},
+	"C06": func() []retainCall {
+		// HTML values returned by ExecuteToHTML / ExecuteTemplateToHTML, held across later executions of the same set
+		var cs []retainCall
+		t, err := template.New("root").ParseFromTrustedTemplate(tuc.TrustedTemplateFromStringKnownToSatisfyTypeContract(
+			`{{define "a"}}<p title="{{.}}">{{.}}</p>{{end}}{{define "b"}}<a href="/x?q={{.}}">{{.}}</a>{{end}}{{define "c"}}{{range .}}<i>{{.}}</i>{{end}}{{end}}<b>{{.}}</b>`))
+		if err != nil {
+			return nil
+		}
+		datas := []interface{}{"x", "<&\"'>", strings.Repeat("long ", 30), 42, safehtml.HTMLEscaped("<i>"), "", "z"}
+		for _, name := range []string{"root", "a", "b"} {
+			for di, d := range datas {
+				name, d := name, d
+				cs = append(cs, retainCall{fmt.Sprintf("ExecuteTemplateToHTML(%q, data#%d)", name, di), func() string {
+					h, _ := t.ExecuteTemplateToHTML(name, d)
+					return h.String()
+				}})
+			}
+		}
+		for di, d := range [][]string{{"a"}, {"b", "<c>"}, {}, {strings.Repeat("w", 90)}} {
+			d := d
+			cs = append(cs, retainCall{fmt.Sprintf("ExecuteTemplateToHTML(\"c\", list#%d)", di), func() string {
+				h, _ := t.ExecuteTemplateToHTML("c", d)
+				return h.String()
+			}})
+		}
+		cs = append(cs, retainCall{"MustParseAndExecuteToHTML(constant)", func() string { return template.MustParseAndExecuteToHTML("<hr>").String() }})
+		return cs
+	},
 	"C20": func() []retainCall {
 		var cs []retainCall
 		for si := range tsDirSites {
